@@ -33,7 +33,7 @@ import (
 
 // VerifFSOp describes one file-system operation the snapshotter is about to perform.
 type VerifFSOp struct {
-	Op   string // open write sync close remove rename stat seek read
+	Op   string // open write sync close remove rename stat seek truncate
 	Path string
 	Arg  string // open: flags; rename: new path
 	N    int    // write: number of bytes
@@ -114,6 +114,13 @@ func (v *verifFile) Seek(offset int64, whence int) (int64, error) {
 		return 0, err
 	}
 	return v.f.Seek(offset, whence)
+}
+
+func (v *verifFile) Truncate(size int64) error {
+	if err := verifCall(VerifFSOp{Op: "truncate", Path: v.path, N: int(size)}); err != nil {
+		return err
+	}
+	return v.f.Truncate(size)
 }
 
 func (v *verifFile) Sync() error {
